@@ -220,6 +220,16 @@ func someOrders(ids []int, max int, r *rand.Rand) [][]int {
 	return out
 }
 
+// stylesFor: at the first (smallest) fanout every name style is used - the styles also select the four
+// link-order variants of the mined universe - at the other fanouts one style each.
+func stylesFor(fi int) []string {
+	all := []string{"plain", "unicode", "hexish", "space"}
+	if fi == 0 {
+		return all
+	}
+	return []string{all[fi%len(all)]}
+}
+
 func fullDirScript(nuniv int, hows []string) [][]any {
 	var sc [][]any
 	for id := 1; id <= nuniv; id++ {
@@ -341,6 +351,27 @@ func init() {
 					}
 				}
 			}
+		case "coldlookups":
+			// every name looked up on a *fresh* node (cold shard cache): what one lookup fetches must not depend on
+			// what earlier lookups happened to cache
+			for fi, f := range parseInts(*fanouts) {
+				u := mineUniverse(f, styles[fi%len(styles)])
+				for _, s := range subsets() {
+					for _, bld := range []string{"sharded", "boxo"} {
+						if bld == "boxo" && len(s) == 0 {
+							continue
+						}
+						dc := &DirCase{Fam: "dir", ID: fmt.Sprintf("cold-%d-%v-%s", f, s, bld), Builder: bld, Fanout: f,
+							Universe: u, Entries: s, Links: links(s), Open: "reify", Mode: "sets"}
+						for id := 1; id <= len(u); id++ {
+							dc.Script = append(dc.Script, []any{"reopen"}, []any{"lookup", id, allHows[id%4]})
+						}
+						if err := runDirCase(dc, tr); err != nil {
+							return err
+						}
+					}
+				}
+			}
 		case "boxo":
 			// reference-written HAMTs holding every subset
 			for fi, f := range parseInts(*fanouts) {
@@ -374,55 +405,59 @@ func init() {
 			})
 		case "faults", "preload":
 			for fi, f := range parseInts(*fanouts) {
-				u := mineUniverse(f, styles[fi%len(styles)])
-				for _, s := range subsets() {
-					// learn the shard count of this set
-					st := NewStore()
-					probe := &DirCase{Builder: "sharded", Fanout: f, Universe: u, Entries: s, Links: links(s)}
-					root, _, err := buildDir(st, probe, putTargets(st))
-					if err != nil {
-						return err
-					}
-					dw, err := walkDir(st, root, u)
-					if err != nil {
-						return err
-					}
-					nsh := len(dw.Shards)
-					for m := 0; m <= nsh; m++ {
-						if m == 1 || (m == 0 && *what == "faults") {
-							continue
+				for _, style := range stylesFor(fi) {
+					u := mineUniverse(f, style)
+					for _, s := range subsets() {
+						// learn the shard count of this set
+						st := NewStore()
+						probe := &DirCase{Builder: "sharded", Fanout: f, Universe: u, Entries: s, Links: links(s)}
+						root, _, err := buildDir(st, probe, putTargets(st))
+						if err != nil {
+							return err
 						}
-						for _, bld := range []string{"sharded", "boxo"} {
-							dc := &DirCase{Fam: "dir", ID: fmt.Sprintf("%s-%d-%v-m%d-%s", *what, f, s, m, bld), Builder: bld, Fanout: f,
-								Universe: u, Entries: s, Links: links(s), Open: "reify", Mode: "fault", NotFound: m%2 == 0}
-							if bld == "boxo" && len(s) == 0 {
+						dw, err := walkDir(st, root, u)
+						if err != nil {
+							return err
+						}
+						nsh := len(dw.Shards)
+						for m := 0; m <= nsh; m++ {
+							if m == 1 || (m == 0 && *what == "faults") {
 								continue
 							}
-							if m > 0 {
-								dc.Missing = []int{m}
-							}
-							if *what == "preload" {
-								dc.Open = "preload"
-								if m == 0 {
-									dc.Mode = "seq"
+							for _, bld := range []string{"sharded", "boxo"} {
+								dc := &DirCase{Fam: "dir", ID: fmt.Sprintf("%s-%d-%s-%v-m%d-%s", *what, f, style, s, m, bld), Builder: bld, Fanout: f,
+									Universe: u, Entries: s, Links: links(s), Open: "reify", Mode: "fault", NotFound: m%2 == 0}
+								if bld == "boxo" && len(s) == 0 {
+									continue
 								}
-								dc.Script = [][]any{{"length"}, {"iter", "map"}}
-							} else {
-								dc.Script = append(fullDirScript(10, []string{"string", "native"}), []any{"reopen"}, []any{"length"},
-									[]any{"iter", "map"}, []any{"lookup", 1, "string"}, []any{"lookup", 4, "string"}, []any{"lookup", 6, "string"}, []any{"lookup", 7, "string"}, []any{"lookup", 8, "string"})
-							}
-							if err := runDirCase(dc, tr); err != nil {
-								return err
+								if m > 0 {
+									dc.Missing = []int{m}
+								}
+								if *what == "preload" {
+									dc.Open = "preload"
+									if m == 0 {
+										dc.Mode = "seq"
+									}
+									dc.Script = [][]any{{"length"}, {"iter", "map"}}
+								} else {
+									dc.Script = append(fullDirScript(10, []string{"string", "native"}), []any{"reopen"}, []any{"length"},
+										[]any{"iter", "map"}, []any{"lookup", 1, "string"}, []any{"lookup", 4, "string"}, []any{"lookup", 6, "string"}, []any{"lookup", 7, "string"}, []any{"lookup", 8, "string"},
+										// the shard comes back: the same node must now see every entry
+										[]any{"heal"}, []any{"iter", "map"}, []any{"lookup", 5, "string"}, []any{"lookup", 8, "string"}, []any{"length"})
+								}
+								if err := runDirCase(dc, tr); err != nil {
+									return err
+								}
 							}
 						}
-					}
-					if *what == "faults" && nsh > 1 {
-						for kth := 1; kth < nsh; kth++ {
-							dc := &DirCase{Fam: "dir", ID: fmt.Sprintf("failat-%d-%v-k%d", f, s, kth), Builder: "sharded", Fanout: f,
-								Universe: u, Entries: s, Links: links(s), Open: "reify", Mode: "fault", FailAt: kth, NotFound: kth%2 == 0,
-								Script: [][]any{{"iter", "map"}, {"length"}, {"iter", "native"}}}
-							if err := runDirCase(dc, tr); err != nil {
-								return err
+						if *what == "faults" && nsh > 1 {
+							for kth := 1; kth < nsh; kth++ {
+								dc := &DirCase{Fam: "dir", ID: fmt.Sprintf("failat-%d-%s-%v-k%d", f, style, s, kth), Builder: "sharded", Fanout: f,
+									Universe: u, Entries: s, Links: links(s), Open: "reify", Mode: "fault", FailAt: kth, NotFound: kth%2 == 0,
+									Script: [][]any{{"iter", "map"}, {"length"}, {"iter", "native"}}}
+								if err := runDirCase(dc, tr); err != nil {
+									return err
+								}
 							}
 						}
 					}
